@@ -60,14 +60,18 @@ PROPS = {
     ),
     "C01": dict(
         title="Write-then-read round trip is lossless",
-        lean_modules=["Gowarc.Props.C01"],
+        lean_modules=["Gowarc.Props.C01", "Gowarc.Props.C01comp"],
+        audit_namespaces=["Gowarc.Props.C01"],
         n_quick=3000, n_thorough=40000,
-        required_theorems=["C01_framing", "C01_version_line"],
-        model_assumptions=["see level_note; records with header values that have edge white space or contain '=?' are the listed findings C19-F17 / C19-F15"],
+        required_theorems=["C01_framing", "C01_version_line", "C01_roundtrip", "unmarshal_serialized", "unmarshalTail_rest"],
+        model_assumptions=["C01_roundtrip is stated for clean header fields (canonical names, values without edge white space or LF, no '=?' in the line: everything else is exactly the two listed findings C19-F17 / C19-F15), a truthful Content-Length, and the repair options off (with repairs on the reader may rewrite fields by design: C03/C07)",
+                           "the theorem says that what is returned is exactly what was written; that it IS returned without findings for records the builder produces is checked by the round-trip oracle and the model comparison (C17/C03 give the validation side)",
+                           "the builder side (build then marshal) and gzip are covered by correspondence, not by this theorem"],
         design_ref="DESIGN.md section 5, C01",
         level_text="Executable model of build -> marshal -> unmarshal compared with the implementation on seeded records x builder options x parser options (incl. strict) x trailing bytes; "
-                   "round-trip oracle on the implementation (same version, type, ordered fields, block, no finding, identical re-serialisation, tail untouched); framing theorems "
-                   "(block cut by length, never scanned; version line; header lines) kernel-checked; full composition theorem in progress (see DESIGN.md)",
+                   "round-trip oracle on the implementation (same version, type, ordered fields, block, no finding, identical re-serialisation, tail untouched); theorems: "
+                   "C01_roundtrip (composition over the full Unmarshal model: for every non-empty list of clean fields, any block bytes of the declared length - delimiters, gzip magic, nested records included - any tail, both versions, every policy with repairs off: a record returned for marshal(ver, fs, B) ++ tail has exactly the fields fs and the block B, at offset 0, leaving tail), "
+                   "unmarshal_serialized, framing lemmas",
         level_note=COMMON_NOTE,
         known_from=["C19"],
     ),
